@@ -36,7 +36,7 @@ pids=()
 for k in $(seq 0 $((JOBS-1))); do
   s=$((SEED*64 + k + 1))
   if [ $((k % 2)) -eq 0 ]; then C="$W/corpus"; else C="$W/corpus-empty"; fi
-  "$BIN" -runs=$RUNS -seed=$s -len_control=0 -max_len=1024 -reload=1 -print_final_stats=1 -timeout=30 \
+  "$BIN" -runs=$RUNS -seed=$s -len_control=0 -max_len=1024 -reload=1 -print_final_stats=1 -timeout=120 \
       -dict=$V/fuzz/dict.txt -artifact_prefix="$W/artifacts/" "$C" >"$W/logs/job$k.log" 2>&1 &
   pids+=($!)
 done
@@ -50,11 +50,17 @@ rc=0
 arts=$(ls "$W/artifacts" 2>/dev/null | grep -E "^(crash|timeout|oom)-" | head -20)
 for a in $arts; do
   case "$a" in
-    timeout-*|oom-*) echo "[$ID] fuzz: $a (slow unit / memory) -> inconclusive" >&2; [ $rc -eq 0 ] && rc=2 ;;
+    timeout-*) # libFuzzer's limit is wall-clock: under load a one-second unit can exceed it.  Re-execute the unit alone;
+               # only if it does not finish within 5 minutes either is the run inconclusive (a hang is C06's hang watch's business)
+               if VERIF_DIR=$V timeout 300 "$BINV" fuzz-replay $ID $TARGET "$W/artifacts/$a" >/dev/null 2>&1; [ $? -eq 124 ]; then
+                 echo "[$ID] fuzz: $a does not finish within 300 s when re-executed alone -> inconclusive" >&2; [ $rc -eq 0 ] && rc=2
+               else echo "[$ID] fuzz: $a was slow under load, finishes when re-executed alone (ignored)" >&2; fi ;;
+    oom-*) echo "[$ID] fuzz: $a (memory) -> inconclusive" >&2; [ $rc -eq 0 ] && rc=2 ;;
     crash-*) VERIF_DIR=$V "$BINV" fuzz-replay $ID $TARGET "$W/artifacts/$a"; r=$?; if [ $r -eq 1 ]; then rc=1; elif [ $r -ne 0 ] && [ $rc -eq 0 ]; then rc=2; fi ;;
   esac
 done
 VERIF_DIR=$V "$BINV" fuzz-evidence $ID $TARGET "${execs:-0}" "${corp:-0}" "${cov:-0}" "$JOBS" "$RUNS" >/dev/null
 echo "[$ID] fuzz target=$TARGET jobs=$JOBS runs_per_job=$RUNS executed=$execs corpus_files=$corp coverage_edges=$cov artifacts=$(echo $arts | wc -w) rc=$rc"
+# a job that stopped on a timeout artifact exits non-zero as well; that is accounted for above
 if [ $rc -eq 0 ] && [ $fail -ne 0 ] && [ -z "$arts" ]; then echo "[$ID] a fuzz job exited non-zero without artifact" >&2; rc=2; fi
 exit $rc
